@@ -37,6 +37,7 @@
 // lucky:<what> (a false statement with the one challenge value that lets it pass: soundness error made
 // visible, expected 1); unlucky:<what> (a TRUE statement and an honest prover whose coins make the verifier
 // refuse: completeness error made visible, expected 0); peer-silent / peer-stops.
+#include <sys/resource.h>
 #include "common.hh"
 #include <memory>
 #include <algorithm>
@@ -803,7 +804,8 @@ std::string in_child(const std::function<std::string()> &f)
 	fflush(stdout); fflush(stderr);
 	pid_t pid = fork();
 	if (pid == 0) {
-		close(pfd[0]); alarm(30);
+		close(pfd[0]);
+		{ struct rlimit rl; rl.rlim_cur = 60; rl.rlim_max = 65; setrlimit(RLIMIT_CPU, &rl); } alarm(600);   // CPU-time limit: robust against machine load
 		int devnull = open("/dev/null", O_WRONLY); if (devnull >= 0) dup2(devnull, 2);
 		std::string r = guarded(f);
 		(void)!write(pfd[1], r.data(), r.size());
